@@ -294,6 +294,36 @@ def growth_cases(mode):
         out.append(G.case("grow-%s" % cls, cls, mode, ["new v0", "extend v0 it[%s]" % items, "spare v0"]))
     return out
 
+def serde_cases(tier, seed, mode):
+    out = []
+    k = 0
+    M = (1 << 64) - 1
+    rng = G.Rng(seed ^ 0x19)
+    seqs = ["sq[]", "sq[1]", "sq[1,2,3]", "sq[1,2,3,4,5,6,7,8,9]", "sq[E]", "sq[1,E]", "sq[1,2,E,3]", "sq[1,2,3,E]", "sq[E,1,2]",
+            "sq[1,2,3,4,5,E]", "sq[1,2,3,4,5,6,7,8,9,10,11,12,13,14,15,16,17]"]
+    hints = ["N", "0", "1", "3", "9", "1023", "1024", "1025", "4096", str(1 << 32), str(M // 2), str(M - 1), str(M)]
+    for cls in G.CLASSES:
+        for sq in seqs:
+            for h in hints:
+                out.append(G.case("sd-%s-%d" % (cls, k), cls, mode, ["deserialize v0 %s %s" % (h, sq), "serialize v0", "push v0 5", "serialize v0"])); k += 1
+        for label, pre in G.start_states(cls):
+            for sq in seqs:
+                for h in (hints if label in ("part", "sentinel") else ["N", "2", "1024", str(M)]):
+                    out.append(G.case("sdi-%s-%s-%d" % (cls, label, k), cls, mode, pre + ["serialize v0", "deserialize_in_place v0 %s %s" % (h, sq), "serialize v0", "push v0 5", "pop v0"])); k += 1
+    # every position x injected element error, round trip of random contents
+    n = 100 if tier == "quick" else 1000
+    for i in range(n):
+        cls = G.CLASSES[i % len(G.CLASSES)]
+        vals = [str(rng.below(9)) for _ in range(rng.below(12))]
+        pos = rng.below(len(vals) + 1)
+        items = vals[:pos] + (["E"] if rng.chance(1, 3) else []) + vals[pos:]
+        prior = [str(rng.below(9)) for _ in range(rng.below(10))]
+        h = rng.pick(["N", str(len(vals)), str(rng.below(5)), str(M), "1024"])
+        pre = ["macro_list v0 " + " ".join(prior)] if prior else ["new v0"]
+        out.append(G.case("sdr-%s-%d" % (cls, i), cls, mode, pre + ["deserialize_in_place v0 %s sq[%s]" % (h, ",".join(items)), "serialize v0",
+                          "deserialize w %s sq[%s]" % (h, ",".join(items)), "compare v0 v0"]))
+    return out
+
 def general(tier, seed, pid, modes=("debug",)):
     return [(m, corpus(m, pid) + general_cases(tier, seed, m)) for m in modes]
 
@@ -357,6 +387,12 @@ PROPS = {
             "cases": lambda tier, seed: [("debug", corpus("debug", "C17") + hostile_cases(tier, seed, "debug"))],
             "owned_oracles": ["O ledger", "O alloc", "X signal 11"], "owned_diffs": ["own", "contents", "result", "alloc", "ub", "crash"],
             "partial_missing": ["no hostile-callback theorem yet beyond push/pop (which call no user code); scripted callbacks enumerated exhaustively up to length 4 (quick) / 6 (thorough) by the correspondence"]},
+    "C19": {"modules": ["MiniVecProof.Props.C19"],
+            "cases": lambda tier, seed: [("debug", serde_cases(tier, seed, "debug")), ("release", serde_cases(tier, seed, "release"))] if tier == "thorough"
+                     else [("debug", serde_cases(tier, seed, "debug"))],
+            "owned_oracles": ["O vec-mismatch", "O ledger", "O alloc", "serde-prealloc", "X signal 11"],
+            "owned_diffs": ["result", "contents", "alloc", "own", "cap", "panic", "ub", "crash"],
+            "partial_missing": ["round trip / in-place regimes / error part-way (design parts a, b, d) are hand-modelled (Model/Serde.lean) and tied by correspondence + std Vec's own serde impl as shadow; no theorem yet beyond the bounded pre-allocation (c)"]},
     "C18": {"modules": ["MiniVecProof.Props.C18"],
             "cases": lambda tier, seed: [("debug", allocfail_sweep(tier, seed, "debug")), ("release", allocfail_sweep(tier, seed, "release"))],
             "owned_oracles": ["X signal 11", "allocfail-outcome", "O alloc"], "owned_diffs": ["alloc", "panic", "result", "crash", "ub"]},
